@@ -1,0 +1,193 @@
+//go:build verif
+
+package verifhook
+
+import (
+	"errors"
+	"reflect"
+	"sort"
+	"sync"
+
+	"github.com/IBM/sarama"
+
+	"github.com/linkedin/Burrow/core/internal/cluster"
+	"github.com/linkedin/Burrow/core/internal/helpers"
+	"github.com/linkedin/Burrow/core/protocol"
+)
+
+// TopicPartition names one partition.
+type TopicPartition struct {
+	Topic     string
+	Partition int32
+}
+
+// BlockAnswer is a broker's answer for one partition: an error code (Err true) or an offset.
+type BlockAnswer struct {
+	Topic     string
+	Partition int32
+	Err       bool
+	Offset    int64
+}
+
+// FakeKafka is a scriptable stand-in for the Kafka client and brokers the cluster module talks to.
+// Every answer comes from the function fields; every call is recorded.
+type FakeKafka struct {
+	TopicsFn     func() ([]string, bool)                        // ok=false: error
+	PartitionsFn func(topic string) ([]int32, bool)             // ok=false: error
+	LeaderFn     func(topic string, partition int32) (int32, bool) // ok=false: error / no leader
+	OffsetsFn    func(broker int32, request []TopicPartition) ([]BlockAnswer, bool)
+	GroupsFn     func() (map[string]string, bool)
+
+	mu           sync.Mutex
+	RefreshCalls int
+	Asked        map[int32][]TopicPartition
+	Closed       []int32
+}
+
+type fakeClient struct{ k *FakeKafka }
+type fakeBroker struct {
+	k  *FakeKafka
+	id int32
+}
+
+var errFake = errors.New("verif: injected fault")
+
+func (c *fakeClient) Config() *sarama.Config          { return sarama.NewConfig() }
+func (c *fakeClient) Brokers() []helpers.SaramaBroker { return nil }
+func (c *fakeClient) Topics() ([]string, error) {
+	t, ok := c.k.TopicsFn()
+	if !ok {
+		return nil, errFake
+	}
+	return t, nil
+}
+func (c *fakeClient) Partitions(topic string) ([]int32, error) {
+	p, ok := c.k.PartitionsFn(topic)
+	if !ok {
+		return nil, errFake
+	}
+	return p, nil
+}
+func (c *fakeClient) WritablePartitions(topic string) ([]int32, error) { return c.Partitions(topic) }
+func (c *fakeClient) Leader(topic string, partitionID int32) (helpers.SaramaBroker, error) {
+	id, ok := c.k.LeaderFn(topic, partitionID)
+	if !ok {
+		return nil, errFake
+	}
+	return &fakeBroker{k: c.k, id: id}, nil
+}
+func (c *fakeClient) Replicas(string, int32) ([]int32, error)       { return nil, errFake }
+func (c *fakeClient) InSyncReplicas(string, int32) ([]int32, error) { return nil, errFake }
+func (c *fakeClient) RefreshMetadata(...string) error {
+	c.k.mu.Lock()
+	c.k.RefreshCalls++
+	c.k.mu.Unlock()
+	return nil
+}
+func (c *fakeClient) GetOffset(string, int32, int64) (int64, error)      { return 0, errFake }
+func (c *fakeClient) Coordinator(string) (helpers.SaramaBroker, error)   { return nil, errFake }
+func (c *fakeClient) RefreshCoordinator(string) error                    { return errFake }
+func (c *fakeClient) Close() error                                       { return nil }
+func (c *fakeClient) Closed() bool                                       { return false }
+func (c *fakeClient) NewConsumerFromClient() (sarama.Consumer, error)    { return nil, errFake }
+func (c *fakeClient) ListConsumerGroups() (map[string]string, error) {
+	if c.k.GroupsFn == nil {
+		return nil, errFake
+	}
+	g, ok := c.k.GroupsFn()
+	if !ok {
+		return nil, errFake
+	}
+	return g, nil
+}
+
+func (b *fakeBroker) ID() int32 { return b.id }
+func (b *fakeBroker) Close() error {
+	b.k.mu.Lock()
+	b.k.Closed = append(b.k.Closed, b.id)
+	b.k.mu.Unlock()
+	return nil
+}
+
+// requestBlocks reads the (unexported) topic/partition blocks of an OffsetRequest by reflection.
+func requestBlocks(request *sarama.OffsetRequest) []TopicPartition {
+	var out []TopicPartition
+	blocks := reflect.ValueOf(request).Elem().FieldByName("blocks")
+	if !blocks.IsValid() || blocks.Kind() != reflect.Map {
+		panic("verif: sarama.OffsetRequest has no map field 'blocks'")
+	}
+	it := blocks.MapRange()
+	for it.Next() {
+		topic := it.Key().String()
+		inner := it.Value().MapRange()
+		for inner.Next() {
+			out = append(out, TopicPartition{Topic: topic, Partition: int32(inner.Key().Int())})
+		}
+	}
+	sort.Slice(out, func(i, j int) bool {
+		if out[i].Topic != out[j].Topic {
+			return out[i].Topic < out[j].Topic
+		}
+		return out[i].Partition < out[j].Partition
+	})
+	return out
+}
+
+func (b *fakeBroker) GetAvailableOffsets(request *sarama.OffsetRequest) (*sarama.OffsetResponse, error) {
+	asked := requestBlocks(request)
+	b.k.mu.Lock()
+	if b.k.Asked == nil {
+		b.k.Asked = make(map[int32][]TopicPartition)
+	}
+	b.k.Asked[b.id] = append(b.k.Asked[b.id], asked...)
+	b.k.mu.Unlock()
+	answers, ok := b.k.OffsetsFn(b.id, asked)
+	if !ok {
+		return nil, errFake
+	}
+	response := &sarama.OffsetResponse{Blocks: make(map[string]map[int32]*sarama.OffsetResponseBlock)}
+	for _, a := range answers {
+		if response.Blocks[a.Topic] == nil {
+			response.Blocks[a.Topic] = make(map[int32]*sarama.OffsetResponseBlock)
+		}
+		block := &sarama.OffsetResponseBlock{Err: sarama.ErrNoError, Offsets: []int64{a.Offset}, Offset: a.Offset}
+		if a.Err {
+			block = &sarama.OffsetResponseBlock{Err: sarama.ErrNotLeaderForPartition}
+		}
+		response.Blocks[a.Topic][a.Partition] = block
+	}
+	return response, nil
+}
+
+// Reset clears the call records.
+func (k *FakeKafka) Reset() {
+	k.mu.Lock()
+	k.RefreshCalls = 0
+	k.Asked = nil
+	k.Closed = nil
+	k.mu.Unlock()
+}
+
+// KafkaCluster is a handle on a real cluster.KafkaCluster module.
+type KafkaCluster struct {
+	m *cluster.KafkaCluster
+}
+
+// NewKafkaCluster builds the module without connecting anywhere.
+func NewKafkaCluster(app *protocol.ApplicationContext, name string) *KafkaCluster {
+	return &KafkaCluster{m: cluster.VerifNewKafkaCluster(app, name)}
+}
+
+// GetOffsets runs one refresh cycle against the fake Kafka.
+func (c *KafkaCluster) GetOffsets(k *FakeKafka) { c.m.VerifGetOffsets(&fakeClient{k: k}) }
+
+// ReapNonExistingGroups runs the groups reaper once against the fake Kafka.
+func (c *KafkaCluster) ReapNonExistingGroups(k *FakeKafka) {
+	c.m.VerifReapNonExistingGroups(&fakeClient{k: k})
+}
+
+// FetchMetadata reports the module's fetchMetadata flag.
+func (c *KafkaCluster) FetchMetadata() bool { return c.m.VerifFetchMetadata() }
+
+// SetFetchMetadata sets the flag (metadata ticker).
+func (c *KafkaCluster) SetFetchMetadata(v bool) { c.m.VerifSetFetchMetadata(v) }
